@@ -61,6 +61,8 @@ class Z3Enc:
                 self.axioms += [r >= 0, r * r == u]
             elif name == "log":
                 self.axioms += [z3.Implies(u > 1, r > 0), z3.Implies(u < 1, r < 0), z3.Implies(u == 1, r == 0)]
+            elif name == "logabs":
+                self.axioms += [z3.Implies(z3.Or(u > 1, u < -1), r > 0), z3.Implies(z3.And(u < 1, u > -1), r < 0)]
             elif name == "exp":
                 self.axioms += [r > 0, z3.Implies(u > 0, r > 1), z3.Implies(u < 0, r < 1)]
         elif op == "u":
